@@ -128,7 +128,7 @@ class C15(Prop):
         "compact_is_filter", "columnSubset_is_filter", "columnCompact_is_filter", "columnSubset_nucleic",
         "columnSubset_wellformed", "columnSubset_dealign",
         "minimGaps_text_removes_exactly", "minimGaps_digital_removes_exactly", "minimGaps_text_is_filter",
-        "minimGaps_digital_is_filter", "noGaps_text_keeps_exactly", "noGaps_text_is_filter",
+        "minimGaps_digital_is_filter", "noGaps_text_keeps_exactly", "noGaps_text_is_filter", "fetch_is_ungapped_row", "fetch_after_gap_removal",
         "sequenceSubset_keeps_rows", "sequenceSubset_fails_iff_empty", "sequenceSubset_wellformed",
         "sequenceSubset_attached", "sequenceSubset_keeps_markup", "clone_is_identity",
         "digital_text_digital", "generated_tables_consistent", "text_digital_text",
@@ -163,7 +163,8 @@ class C15(Prop):
     assumptions = ["allocation never fails (eslEMEM paths not modelled); leaks on esl_ct2wuss error paths are outside the property (suppressed in LSan)",
                    "alignments are constructed through the public API (esl_msa_Create, Set*, AddGS, AppendGC/GR), not parsed from files (C01/C03 cover the parsers)",
                    "MarkFragments thresholds evaluated in binary32/binary64 by the driver (L0); esl_msa_Copy modelled through Create+Copy only",
-                   "not modelled: esl_msa_ReasonableRF, SymConvert, Checksum, Hash, Compare*, Sample, esl_sq.c conversions"]
+                   "esl_sq.c: only esl_sq_FetchFromMSA is modelled (name/acc/desc/source, ungapped sequence, SS and GR dealigned in register); other esl_sq conversions are not",
+                   "not modelled: esl_msa_ReasonableRF, SymConvert, Checksum, Hash, Compare*, Sample"]
     rule = ("cases = construction of a random annotated alignment + chain of transformations with a full dump after each, or WUSS conversions; "
             "non-trivial = at least two successful operations and no fault; distinct by implementation output trace")
     quick_budget_s = 60
@@ -302,10 +303,11 @@ class C15(Prop):
     def msa_case(self, rng, idx, big=False):
         mode, nseq, alen, rows, ops = self.rand_alignment(rng, big)
         sticky = len(ops)
-        ops += ["dump", "validate"]
+        fk = rng.randrange(0, nseq) if rng.random() < 0.9 else nseq + rng.randrange(0, 2)
+        ops += ["dump", "validate", "fetch i=%d" % fk]
         digital = False
         if mode != "text":
-            ops += ["digitize abc=" + mode, "dump", "validate"]; digital = True
+            ops += ["digitize abc=" + mode, "dump", "validate", "fetch i=%d" % fk]; digital = True
         def cmask(n_hint):
             m = self.rand_mask(rng, rng.choice([n_hint, n_hint, 1, 2, 3, 7, 13]) or 1)
             return (m or "1") + " cyc=1"
@@ -344,6 +346,9 @@ class C15(Prop):
                 ops += ["markfrag t=" + fbits(rng.choice([0.5, 0.0, 1.0, 0.3, rng.random()])), "dump"]
             else:
                 ops += ["markfragold t=" + dbits(rng.choice([0.5, 0.0, 1.0, 0.3, rng.random()])), "dump", "validate"]
+            if ops[-1] != "fetch i=%d" % fk and rng.random() < 0.7:
+                ops += ["dump", "fetch i=%d" % (fk if rng.random() < 0.8 else rng.randrange(0, nseq))]
+                if rng.random() < 0.2: ops += ["fetch i=%d w=b" % rng.randrange(0, nseq)]
         return {"name": "msa%d" % idx, "ops": ops, "sticky": sticky}
 
     def wuss_case(self, rng, idx, maxlen):
@@ -436,6 +441,10 @@ class C15(Prop):
                     A.line = l
                     if pending and pending[0][0] not in ("seqsubset", "clone", "copy", "markfrag"): pending = None
                 if f: return f
+            elif name == "fetch":
+                cur = B if kv.get("w") == "b" else A
+                f = self.check_fetch(cur, int(kv["i"]), l)
+                if f: return f
             elif name == "validate":
                 if l not in ("ok", "nomsa"): return Failure("monitor", "esl_msa_Validate fails after %r: %s" % (pending[0] if pending else "construction", l))
             elif name == "swap":
@@ -504,6 +513,35 @@ class C15(Prop):
             if l.startswith("ok ss="):
                 r = unhx(l[6:])
                 if wuss_pairs(r) != wuss_pairs(ss): return Failure("monitor", "esl_wuss_full changes the pairs of %r" % ss)
+        return None
+
+    def check_fetch(self, d, i, l):
+        """esl_sq_FetchFromMSA against the last dump of that alignment: the ungapped row, annotation dealigned in parallel"""
+        if d is None or not d.ok or l == "nomsa": return None
+        if i >= d.nseq:
+            return None if l == "eod" else Failure("monitor", "esl_sq_FetchFromMSA(%d) on %d sequences: %s" % (i, d.nseq, l[:40]))
+        if not l.startswith("ok "): return Failure("monitor", "esl_sq_FetchFromMSA failed: " + l[:60])
+        kv = {}; xr = []
+        for w in l.split()[1:]:
+            k, v = w.split("=", 1)
+            if k == "xr": t, val = v.split(","); xr.append((unhx(t), unhx(val)))
+            else: kv[k] = v
+        sq = d.sq[i]; row = sq["row"]
+        if d.digital:
+            K, Kp, _ = ABC[d.abc]; keep = [not (x == K or x == Kp - 1) for x in row]
+        else: keep = [x not in b"-_.~" for x in row]
+        want = filt(keep, row)
+        if (unhx(kv["seq"]) or b"") != want: return Failure("monitor", "esl_sq_FetchFromMSA: sequence %d is not the ungapped row (%r vs %r)" % (i, unhx(kv["seq"]), want))
+        if int(kv["n"]) != len(want) or int(kv["L"]) != len(want): return Failure("monitor", "esl_sq_FetchFromMSA: n/L disagree with the sequence")
+        if unhx(kv["name"]) != sq["name"] or (unhx(kv["acc"]) or b"") != (sq["acc"] or b"") or (unhx(kv["desc"]) or b"") != (sq["desc"] or b""):
+            return Failure("monitor", "esl_sq_FetchFromMSA: name/accession/description of sequence %d not carried over" % i)
+        if (unhx(kv["src"]) or b"") != (d.name or b""): return Failure("monitor", "esl_sq_FetchFromMSA: source is not the alignment name")
+        ss = unhx(kv["ss"])
+        if (sq["ss"] is None) != (ss is None) or (ss is not None and ss != filt(keep, sq["ss"])):
+            return Failure("monitor", "esl_sq_FetchFromMSA: SS of sequence %d not dealigned in register" % i)
+        wantxr = [(t, filt(keep, v[i])) for t, v in d.gr if v[i] is not None]
+        if [(t, v or b"") for t, v in xr] != [(t, v or b"") for t, v in wantxr]:
+            return Failure("monitor", "esl_sq_FetchFromMSA: GR markup of sequence %d not carried over / dealigned" % i)
         return None
 
     def check_b(self, pending, A, B):
